@@ -9,13 +9,14 @@
 
    [variant] selects the semantics of the two places that were repaired:
      v_start = true : the event set's clock starts at Builder::start_time
-                      (false: at zero, whatever the start time -- F2)
+                      (fix: commit d335396; false: at zero, whatever the start
+                      time -- F2)
      v_peek  = true : dispatch_event decides the limit on the timestamp of the
-                      next event without removing it
-                      (false: fetch it, and put it back with `add` when the
+                      next event without removing it (fix: commit f4552a6;
+                      false: fetch it, and put it back with `add` when the
                       limit applies -- F7, F8)
-   [run] is the repaired code; Refuted/C02.v and Refuted/C10.v instantiate the
-   pinned behaviour. *)
+   [run] is the code as it is now (both repairs); Refuted/C02.v and
+   Refuted/C10.v instantiate the pinned behaviour. *)
 From Coq Require Import List NArith PArith Bool.
 From DesVerif Require Import Common.Fuel Common.Codec CQueue.Model CQueue.Spec Runtime.Limit.
 Import ListNotations.
@@ -52,9 +53,8 @@ Definition set_fes (s : rt) (q : sp) : rt :=
 Definition dec_budget (s : rt) : rt :=
   {| fes := fes s; clock := clock s; itr := itr s; limit := limit s; budget := budget s - 1; log := log s; adds := adds s |}.
 
-(* CQueue::new_at(n, t, start): an empty event set whose clock is [start] *)
-Definition sp_new_at (start : N) : sp := {| s_tcur := start; s_zero := []; s_rest := []; s_next := 0 |}.
-
+(* FutureEventSet::new_with: CQueue::new_at(n, t, start_time) -- an empty event
+   set whose clock is [start] (Spec.sp_new_at) -- resp. CQueue::new *)
 Definition new_fes (v : variant) (start : N) : sp := if v_start v then sp_new_at start else sp_new.
 
 (* Builder::build *)
@@ -89,12 +89,8 @@ Fixpoint do_actions (acts : list action) (s : rt) : rt :=
 
 Definition handle (P : prog) (label : N) (s : rt) : rt := do_actions (nth (N.to_nat label) P []) s.
 
-(* timestamp of the event fetch_next would return *)
-Definition peek (q : sp) : option N :=
-  match s_zero q with
-  | x :: _ => Some (etime x)
-  | [] => match s_rest q with x :: _ => Some (etime x) | [] => None end
-  end.
+(* FutureEventSet::peek_time: timestamp of the event fetch_next would return (Spec.sp_peek) *)
+Definition peek (q : sp) : option N := match sp_peek q with OPeek o => o | _ => None end.
 
 (* the part of dispatch_event after the limit test: itr += 1; set_now(time); event.handle(self) *)
 Definition deliver (P : prog) (s : rt) (q : sp) (label time : N) : rt :=
